@@ -188,6 +188,22 @@ def run_shard(ctx):
             ctx.observe("boundary-length-frames")
         else:
             cfg, stmts, _ = workloads.generic_case(rng, max_len=max_len if rng.random() < .2 else 60)
+            if rng.random() < .15:
+                # the SAME quoted triple stated again after another term stood in its slot (not elided), and moved between slots
+                q = ("triple", ("iri", "http://ex.org/ns/qs"), ("iri", "http://ex.org/v#qp"), ("iri", "http://ex.org/ns/sub/qo"))
+                g_ = [stmts[0][3]] if stmts and len(stmts[0]) == 4 else ([("default",)] if cfg["physical"] != 1 else [])
+                extra = [(q, ("iri", "http://ex.org/v#p1"), ("lit", "o", None, None)),
+                         (("iri", "http://ex.org/ns/x"), ("iri", "http://ex.org/v#p1"), ("lit", "o", None, None)),
+                         (q, ("iri", "http://ex.org/v#p2"), ("iri", "http://ex.org/ns/y")),
+                         (("iri", "http://ex.org/ns/x"), ("iri", "http://ex.org/v#p2"), q),
+                         (("bnode", "b0"), ("iri", "http://ex.org/v#p2"), q)]
+                at = rng.randint(0, len(stmts))
+                stmts = stmts[:at] + [tuple(list(e) + g_) for e in extra] + stmts[at:]
+                n_, p_, d_ = cfg["preset"]
+                if cfg["entry"] != "sink_serialize":
+                    need = gen.need_of(stmts, cfg["physical"], p_ > 0)
+                    cfg["preset"] = (max(n_, need[1], 8), max(p_, need[0]) if p_ else 0, max(d_, need[2]) if need[2] else d_)
+                ctx.observe("same-quoted-triple-restated")
             if rng.random() < .12 and stmts:
                 cfg["failed_attempt_first"] = rng.randint(1, len(stmts))
                 ctx.observe("retry-after-failed-attempt-with-same-options-object")
